@@ -34,14 +34,14 @@ Print Assumptions C12_deterministic.
        parse_bytes il id (print_full l ds1 ++ c) = Err pos k defs ->
        prefix (elaborate_full l ds1) defs /\ length (print_full l ds1) <= offset pos.
 
-   PROVED (below): for the source class of Dbc/Printer.v (the 12 kinds listed in Properties/C04.v;
+   PROVED (below): for the source class of Dbc/Printer.v (the kinds listed in Properties/C04.v;
    plain layout) and every continuation [c] that is empty or still begins with an identifier other
    than SG_ (which would continue a preceding BO_) followed by an ASCII non-identifier character (the
    first token of the corrupted definition is scannable). Without that side condition the statement is false of the code by design of the one-token lookahead: an
    illegal byte directly after a BS_, NS_, BO_ or SG_ definition is raised while that definition
    peeks for its optional continuation, before it is appended to Defs(). *)
 Theorem C12_error_local_partial : forall (il id : Z -> bool) (ds1 : list sdef) (c : list Z) pos k defs,
-  Forall wf_sdef ds1 -> Forall (fun b => 0 <= b < 256) c ->
+  wf_file ds1 -> Forall (fun b => 0 <= b < 256) c ->
   (c = [] \/ exists kw ch r, c = kw ++ ch :: r /\ is_ident kw /\ ascii ch /\ idc ch = false
                             /\ bytes_eqb kw kw_signal = false) ->
   parse_bytes il id (print ds1 ++ c) = Err pos k defs ->
